@@ -23,35 +23,40 @@ def one(job):
     r = subprocess.run(['/venv/bin/python', '-m', 'osv', 'check', p], cwd='/verif', env=env, capture_output=True, text=True)
     first = [l for l in r.stdout.splitlines() if ' VIOLATED at ' in l or l.startswith('ANALYSIS-ERROR')]
     return d, p, r.returncode, (first[0][:400] if first else '')
+def finish(d, resd):
+    mp = d + '/meta.json'
+    meta = json.load(open(mp)) if os.path.exists(mp) else {'property': os.path.basename(d).split('-')[0]}
+    prop = meta.get('property', '')
+    prev = meta.get('check_results', {})
+    prevfirst = meta.get('first_reports', {})
+    for p in ALL:
+        if p not in resd:
+            resd[p] = (prev.get(p, 0), prevfirst.get(p, ''))
+    det = [p for p in ALL if resd[p][0] == 1]; und = [p for p in ALL if resd[p][0] == 2]
+    meta['check_results'] = {p: resd[p][0] for p in ALL}
+    meta['detected_by'] = det; meta['undecided_by'] = und
+    meta['missed_by'] = [prop] if prop in ALL and prop not in det else []
+    if str(meta.get('kind', '')).startswith('behaviour-preserving'):
+        meta['silent_for'] = [p for p in ALL if resd[p][0] == 0]
+        meta['false_alarms'] = det
+        meta['detected_by'] = []
+    meta['first_reports'] = {p: resd[p][1] for p in det + und}
+    json.dump(meta, open(mp, 'w'), indent=1)
+    print(f"{os.path.basename(d)[:46]:46s} own={prop} {'DET' if prop in det else 'und' if prop in und else 'MISS'}  by={det} und={und}", flush=True)
+
 try:
-    jobs = [(d, p) for d in scratch for p in PROPS]
-    res = {}
+    # one directory after the other (its checks in parallel), each meta written as soon as its checks are done;
+    # the order of the prefixes on the command line is the order of evaluation
+    order = [d for o in only for d in scratch if os.path.basename(d).startswith(o)] if only else list(scratch)
+    seen = set(); order = [d for d in order if not (d in seen or seen.add(d))]
     with ThreadPoolExecutor(int(os.environ.get("REEVAL_THREADS", "16"))) as ex:
-        for d, p, c, first in ex.map(one, jobs):
-            res.setdefault(d, {})[p] = (c, first)
-    own_det = any_det = tot = 0
-    for d in scratch:
-        mp = d + '/meta.json'
-        meta = json.load(open(mp)) if os.path.exists(mp) else {'property': os.path.basename(d).split('-')[0]}
-        prop = meta.get('property', '')
-        prev = meta.get('check_results', {})
-        prevfirst = meta.get('first_reports', {})
-        for p in ALL:
-            if p not in res[d]:
-                res[d][p] = (prev.get(p, 0), prevfirst.get(p, ''))
-        det = [p for p in ALL if res[d][p][0] == 1]; und = [p for p in ALL if res[d][p][0] == 2]
-        meta['check_results'] = {p: res[d][p][0] for p in ALL}
-        meta['detected_by'] = det; meta['undecided_by'] = und
-        meta['missed_by'] = [prop] if prop in ALL and prop not in det else []
-        if str(meta.get('kind', '')).startswith('behaviour-preserving'):
-            meta['silent_for'] = [p for p in ALL if res[d][p][0] == 0]
-            meta['false_alarms'] = det
-            meta['detected_by'] = []
-        meta['first_reports'] = {p: res[d][p][1] for p in det + und}
-        json.dump(meta, open(mp, 'w'), indent=1)
-        if os.path.basename(d)[0] == 'C' or os.path.basename(d).startswith('W2-'):
-            tot += 1; own_det += prop in det; any_det += bool(det)
-        print(f"{os.path.basename(d)[:46]:46s} own={prop} {'DET' if prop in det else 'und' if prop in und else 'MISS'}  by={det} und={und}")
-    print(f'agent-seeded: {tot}, detected by own property check: {own_det}, detected by any check: {any_det}')
+        futs = {d: [ex.submit(one, (d, p)) for p in PROPS] for d in order}
+        for d in order:
+            resd = {}
+            for f in futs[d]:
+                _, p, c, first = f.result()
+                resd[p] = (c, first)
+            finish(d, resd)
+            shutil.rmtree(scratch[d], ignore_errors=True)
 finally:
     for t in scratch.values(): shutil.rmtree(t, ignore_errors=True)
